@@ -6,7 +6,9 @@ Only *declarative* content is translated (python `ast`, nothing is executed):
   * the numeric defaults min_fraction_daily_coverage, min_fraction_hourly_temperature_coverage_per_period,
     MAX_BASELINE_LENGTH and the expression for MIN_BASELINE_LENGTH (ceil|floor|round(<float> * MAX_BASELINE_LENGTH)),
   * which keyword arguments the six data classes pass to the criteria class and which method they call,
-  * the list the billing class hands to clean_billing_daily_data for off-cycle reads (.disqualification or .warnings).
+  * the list the billing class hands to clean_billing_daily_data for off-cycle reads (.disqualification or .warnings),
+  * whether the rows that carry data ignore the usage column of reporting data (_complete_rows), whether the valid-day
+    counts are rounded before truncation (_whole_days), whether the baseline classes add an all-NaN usage column.
 Fail-closed: anything not recognised raises TranslateError (reported by the check as a broken tie)."""
 import ast
 import os
@@ -160,6 +162,73 @@ def _offcycle_target(tree):
     raise TranslateError("clean_billing_daily_data call not found in _BillingData._compute_meter_value_df")
 
 
+def _uses_complete_rows(fn):
+    """'helper' when the method takes the rows that carry data from self._complete_rows(), 'dropna' when from
+    self.data.dropna() directly"""
+    helper = dropna = False
+    for n in ast.walk(fn):
+        if isinstance(n, ast.Call) and isinstance(n.func, ast.Attribute):
+            if n.func.attr == "_complete_rows" and isinstance(n.func.value, ast.Name) and n.func.value.id == "self":
+                helper = True
+            if n.func.attr == "dropna" and isinstance(n.func.value, ast.Attribute) and n.func.value.attr == "data":
+                dropna = True
+    if helper == dropna:
+        raise TranslateError("%s: rows that carry data not recognised" % fn.name)
+    return "helper" if helper else "dropna"
+
+
+def _span_ignores_usage(base):
+    """True when _check_no_data and _compute_n_days_total take their rows from _complete_rows() and that helper drops
+    the observed column for reporting data before dropna(); False when both use self.data.dropna()"""
+    kinds = {_uses_complete_rows(_method(base, m)) for m in ("_check_no_data", "_compute_n_days_total")}
+    if len(kinds) != 1:
+        raise TranslateError("_check_no_data and _compute_n_days_total take their rows differently")
+    if kinds == {"dropna"}:
+        return False
+    fn = _method(base, "_complete_rows")
+    src = ast.unparse(fn)
+    want = ("if self.is_reporting_data and 'observed' in data.columns:", "data = data.drop(columns=['observed'])",
+            "return data.dropna()", "data = self.data")
+    if not all(w in src for w in want):
+        raise TranslateError("_complete_rows is not the recognised form")
+    return True
+
+
+def _day_sum_rounded(tree, base):
+    """True when the three valid-day counts are _whole_days(<sum>) with _whole_days(x) = int(round(x, k)), False when
+    they are int(<sum>)"""
+    fn = _method(base, "_compute_valid_meter_temperature_days")
+    calls = []
+    for n in ast.walk(fn):
+        if isinstance(n, ast.Call) and isinstance(n.func, ast.Name) and n.func.id in ("int", "_whole_days") \
+                and len(n.args) == 1 and ".sum()" in ast.unparse(n.args[0]):
+            calls.append(n.func.id)
+    if len(calls) != 3 or len(set(calls)) != 1:
+        raise TranslateError("valid-day counts not recognised: %s" % calls)
+    if calls[0] == "int":
+        return False
+    for n in tree.body:
+        if isinstance(n, ast.FunctionDef) and n.name == "_whole_days":
+            ret = [x for x in n.body if isinstance(x, ast.Return)]
+            arg = n.args.args[0].arg
+            if len(ret) == 1 and ast.unparse(ret[0].value).replace(" ", "") in (
+                    "int(round(%s,%d))" % (arg, k) for k in range(3, 10)):
+                return True
+    raise TranslateError("_whole_days is not int(round(x, k))")
+
+
+def _baseline_adds_usage(cls):
+    """the baseline class hands a frame with an (all-NaN) observed column to the criteria class when the column was dropped"""
+    src = ast.unparse(_method(cls, "_check_data_sufficiency"))
+    return "if 'observed' not in sufficiency_df.columns:" in src and "sufficiency_df.assign(observed=np.nan)" in src
+
+
+def _hourly_requires_usage(tree):
+    """_HourlyData._set_data rejects a frame without an observed column (so the hourly baseline frame always has it)"""
+    src = ast.unparse(_method(_class(tree, "_HourlyData"), "_set_data"))
+    return "expected_columns = ['observed', 'temperature']" in src and "issubset(set(df.columns))" in src
+
+
 def extract():
     tree = _parse(SC)
     base = _class(tree, "SufficiencyCriteria")
@@ -172,6 +241,8 @@ def extract():
     out["min_fraction_hourly_temperature_coverage_per_period"] = float(
         _field_default(base, "min_fraction_hourly_temperature_coverage_per_period"))
     mx, (rounding, factor) = _length_constants(base)
+    out["span_ignores_usage"] = _span_ignores_usage(base)
+    out["day_sum_rounded"] = _day_sum_rounded(tree, base)
     out["max_baseline_length"] = mx
     out["min_length_rounding"] = rounding
     out["min_length_factor"] = factor
@@ -185,7 +256,9 @@ def extract():
             raise TranslateError("%s baseline class passes is_reporting_data=True" % fam)
         if belec != "self":
             raise TranslateError("%s baseline class does not pass is_electricity_data" % fam)
-        out["flags"][fam] = {"reporting_flag": rrep, "reporting_electric": relec}
+        out["flags"][fam] = {"reporting_flag": rrep, "reporting_electric": relec,
+                             "baseline_adds_usage": (_hourly_requires_usage(t) if fam == "Hourly" else
+                                                     _baseline_adds_usage(_class(t, bname)))}
     out["offcycle_target"] = _offcycle_target(_parse(DATA["Billing"][0]))
     return out
 
@@ -219,6 +292,13 @@ def render(x):
             "  | %s => %s" % (fam, vlib.coq_bool(x["flags"][fam]["reporting_flag"])) for fam in ("Daily", "Billing", "Hourly")),
         "(* billing: off-cycle reads are appended to .disqualification (true) or to .warnings (false) *)",
         "Definition gen_offcycle_dq : bool := %s." % vlib.coq_bool(x["offcycle_target"] == "disqualification"),
+        "(* the rows that carry data (no_data, n_days_total) ignore the usage column of reporting data *)",
+        "Definition gen_span_ignores_usage : bool := %s." % vlib.coq_bool(x["span_ignores_usage"]),
+        "(* the valid-day counts are int(round(sum, k)) (true) or int(sum) (false) *)",
+        "Definition gen_day_sum_rounded : bool := %s." % vlib.coq_bool(x["day_sum_rounded"]),
+        "(* the baseline class always hands a frame with a usage column to the criteria class *)",
+        "Definition gen_baseline_adds_usage (f : family) : bool :=\n  match f with\n%s\n  end." % "\n".join(
+            "  | %s => %s" % (fam, vlib.coq_bool(x["flags"][fam]["baseline_adds_usage"])) for fam in ("Daily", "Billing", "Hourly")),
         "",
     ]
     return "\n".join(lines)
